@@ -79,6 +79,7 @@ def seq_alphabet():
         ["del", "a"], ["pop", "A"], ["popd", "b\n", "d"], ["popitem"], ["clear"],
         ["update", [["a", "v"], ["A", "w\r"], ["c", "z"]], "headers"], ["update", [["d\n", "v"], ["a", "y"]], "mheaders"],
         ["update", [["c", "u"], ["a", "t\0"]], "dict"],
+        ["setobj", "a", "/next\r\nSet-Cookie: x=1", 0], ["setobj", "x-p", "clean/path", 1],
     ]
 
 
@@ -238,8 +239,16 @@ def update_pairs(o):
 
 
 def ENCODE(case):
-    if case[0] == "resp" and any(o[0] == "update" and len(o) > 2 for o in case[2]):
-        case = [case[0], case[1], [["update", update_pairs(o)] if o[0] == "update" else o for o in case[2]]] + list(case[3:])
+    if case[0] == "resp" and any((o[0] == "update" and len(o) > 2) or o[0] == "setobj" for o in case[2]):
+        ops = []
+        for o in case[2]:
+            if o[0] == "update":
+                ops.append(["update", update_pairs(o)])
+            elif o[0] == "setobj":
+                ops.append(["set", o[1], "\n"])       # for the model: a store that is refused and changes nothing
+            else:
+                ops.append(o)
+        case = [case[0], case[1], ops] + list(case[3:])
     return core.enc_line(case)
 
 
@@ -272,6 +281,18 @@ def _apply(m, o):
             return []
         if name == "append":
             m.append(o[1], o[2])
+            return []
+        if name == "setobj":
+            # a value that is not a str (here: a URL object, a pathlib path) whose text is o[2]: it is refused at the point
+            # of mutation whatever its text (TypeError in the membership test), the mapping stays as it was — observed like
+            # the refusal of a dirty str
+            import pathlib
+            from baize.datastructures import URL
+            carrier = URL(o[2]) if o[3] == 0 else pathlib.PurePosixPath(o[2])
+            try:
+                m[o[1]] = carrier
+            except (TypeError, ValueError):
+                raise ValueError("refused")
             return []
         if name == "update":
             m.update(update_source(o))
@@ -360,9 +381,19 @@ def impl(case):
         from baize.asgi.responses import RedirectResponse as AR
         init = [(k, v) for k, v in case[2]]
         out = []
+        target = case[1]
+        if len(repr(case)) % 2:
+            # the target may be given as a URL object (the signature says Union[str, URL]): it is the same text
+            from baize.datastructures import URL
+            try:
+                u = URL(case[1])
+                if str(u) == case[1]:
+                    target = u
+            except Exception:  # noqa  (text urlsplit refuses: stays a str)
+                pass
         for cls, runner in ((WR, _run_wsgi), (AR, _run_asgi)):
             try:
-                out.append(runner(cls(case[1], headers=init if init else None)))
+                out.append(runner(cls(target, headers=init if init else None)))
             except (UnicodeEncodeError, ValueError, KeyError) as e:
                 out.append(_exc(e))
         return out
@@ -520,6 +551,10 @@ def oracle_resp(case, obs):
                 return ("dirty-%s-not-rejected" % name, "%r returned %r, mapping %r -> %r" % (o, r, before, after))
             if init_clean and not d and rejected:
                 return ("clean-%s-rejected" % name, "%r raised ValueError on mapping %r" % (o, before))
+        elif name == "setobj":
+            # a value that is not a str is refused whatever its text: nothing unchecked may enter through str(value)
+            if not rejected:
+                return ("non-str-value-stored", "%r (a %s object) was stored: %r -> %r" % (o, "URL" if o[3] == 0 else "path", before, after))
         elif name == "setdefault":
             d = dirty(o[1]) or dirty(o[2])
             present = [v for k, v in before if k == o[1].lower()]
@@ -673,6 +708,8 @@ def shrink(case):
                     yield ["resp", init, ops[:i] + [["update", o[1][:j] + o[1][j + 1:]] + o[2:]] + ops[i + 1:], cookies]
             else:
                 for pos in range(1, len(o)):
+                    if not isinstance(o[pos], str):
+                        continue
                     for s in _shorter(o[pos]):
                         yield ["resp", init, ops[:i] + [o[:pos] + [s] + o[pos + 1:]] + ops[i + 1:], cookies]
         for i, ck in enumerate(cookies):
